@@ -45,6 +45,8 @@ type c13case struct {
 	db, user, pass, quota, name string
 	viaDial                     bool
 	chain                       []ref.Exception
+	splitAt                     []int           // hello-split: cut positions as per-mille of the hello's length
+	gaps                        []time.Duration // hello-split: pause before each later piece
 }
 
 func drawExceptionChain(rt *rapid.T, maxDepth int) []ref.Exception {
@@ -67,7 +69,7 @@ func TestC13Handshake(t *testing.T) {
 		cr, sr := drawRevs(rt)
 		c := c13case{
 			clientRev: cr, serverRev: sr,
-			answer: rapid.SampledFrom([]string{"hello", "hello", "hello-delayed", "hello-delayed", "exception", "wrong-packet", "garbage",
+			answer: rapid.SampledFrom([]string{"hello", "hello", "hello-delayed", "hello-delayed", "hello-split", "hello-split", "exception", "wrong-packet", "garbage",
 				"truncated-hello-cut", "cut", "silence"}).Draw(rt, "answer"),
 			readTimeout: rapid.SampledFrom([]time.Duration{0, 50 * time.Millisecond, time.Second}).Draw(rt, "read-timeout"),
 			handshakeTO: rapid.SampledFrom([]time.Duration{0, 10 * time.Second, 2 * time.Second}).Draw(rt, "handshake-timeout"),
@@ -89,6 +91,18 @@ func TestC13Handshake(t *testing.T) {
 				c.delay = effHS - time.Millisecond
 			}
 		}
+		if c.answer == "hello-split" {
+			// The hello arrives in 2-3 pieces with pauses longer than the read timeout between
+			// them; all of it is there before the handshake timeout.
+			pieces := rapid.IntRange(2, 3).Draw(rt, "pieces")
+			budget := effHS - 2*time.Millisecond
+			for i := 1; i < pieces; i++ {
+				c.splitAt = append(c.splitAt, rapid.SampledFrom([]int{0, 1, 500, 999, 1000, rapid.IntRange(2, 998).Draw(rt, "cut-pm")}).Draw(rt, "cut"))
+				g := rapid.SampledFrom([]time.Duration{time.Millisecond, effRead + time.Millisecond, 2 * effRead, 5 * effRead, effHS / 3}).Draw(rt, "gap")
+				g = min(g, budget/time.Duration(pieces-1))
+				c.gaps = append(c.gaps, g)
+			}
+		}
 		if c.answer == "exception" {
 			c.chain = drawExceptionChain(rt, 4)
 		}
@@ -105,6 +119,7 @@ func runC13(rt *rapid.T, c c13case, st *stats.Collector) {
 	case "hello":
 	case "hello-delayed":
 		hello.Delay = c.delay
+	case "hello-split":
 	case "exception":
 		hello = simnet.Step{Name: "exception", When: simnet.AfterHello, Bytes: func(*ref.ClientStream) []byte { return Item{Kind: "exception", Exc: c.chain}.Encode(N, 0) }}
 	case "wrong-packet":
@@ -125,6 +140,38 @@ func runC13(rt *rapid.T, c c13case, st *stats.Collector) {
 		hello = simnet.Step{Name: "never", When: func(*ref.ClientStream) bool { return false }}
 	}
 	e.srv.Steps = []simnet.Step{hello}
+	if c.answer == "hello-split" {
+		// piece i of the hello: bytes [cut(i-1), cut(i)), the first byte (packet code) always in piece 0
+		inner := hello.Bytes
+		cutAt := func(cs *ref.ClientStream, i int) int {
+			b := inner(cs)
+			if i < 0 {
+				return 0
+			}
+			if i >= len(c.splitAt) {
+				return len(b)
+			}
+			pos := make([]int, len(c.splitAt))
+			for j, pm := range c.splitAt {
+				pos[j] = min(len(b)-1, max(1, 1+pm*(len(b)-2)/1000))
+			}
+			if len(pos) == 2 && pos[0] > pos[1] {
+				pos[0], pos[1] = pos[1], pos[0]
+			}
+			return pos[i]
+		}
+		e.srv.Steps = nil
+		for i := 0; i <= len(c.splitAt); i++ {
+			i := i
+			s := simnet.Step{Name: fmt.Sprintf("hello-piece-%d", i), Bytes: func(cs *ref.ClientStream) []byte { return inner(cs)[cutAt(cs, i-1):cutAt(cs, i)] }}
+			if i == 0 {
+				s.When = simnet.AfterHello
+			} else {
+				s.Delay = c.gaps[i-1]
+			}
+			e.srv.Steps = append(e.srv.Steps, s)
+		}
+	}
 	e.srv.Start()
 
 	opt := baseOptions(c.clientRev, compModes[0])
@@ -164,7 +211,7 @@ func runC13(rt *rapid.T, c c13case, st *stats.Collector) {
 	})
 	st.Label("answer:" + c.answer)
 
-	success := c.answer == "hello" || c.answer == "hello-delayed"
+	success := c.answer == "hello" || c.answer == "hello-delayed" || c.answer == "hello-split"
 	if !success {
 		if err == nil || client != nil {
 			rt.Fatalf("handshake answered by %s returned client=%v err=%v", c.answer, client != nil, err)
@@ -188,7 +235,7 @@ func runC13(rt *rapid.T, c c13case, st *stats.Collector) {
 		return
 	}
 	if err != nil {
-		rt.Fatalf("handshake with hello after %v (read timeout %v, handshake timeout %v) failed: %v", c.delay, c.readTimeout, effHS, err)
+		rt.Fatalf("handshake with hello after %v (pieces cut at %v per mille, pauses %v; read timeout %v, handshake timeout %v) failed: %v", c.delay, c.splitAt, c.gaps, c.readTimeout, effHS, err)
 	}
 	defer client.Close()
 	// Client hello as written.
